@@ -37,7 +37,7 @@ func ProfileFor(prop string) *Profile {
 		p.MinIdx, p.MaxIdx = 1, 3
 		p.MistypedAttrs = true
 		w["put"], w["update"], w["delete"], w["get"] = 4, 5, 3, 0.5
-		w["query"], w["scan"], w["describe"] = 1, 1, 0.5
+		w["query"], w["scan"], w["describe"] = 1.5, 1, 0.5
 		w["clear"], w["idxcreate"], w["idxdrop"] = 0.5, 0.6, 0.3
 		w["idxtype"] = 0.2
 	case "C04":
@@ -75,6 +75,11 @@ func ProfileFor(prop string) *Profile {
 		w["bad"], w["keyupdate"], w["scan"], w["query"] = 2, 2, 0.5, 0.5
 		w["keyextra"] = 2
 		w["updcond"], w["delcond"] = 0.3, 0.3
+		w["clear"] = 0.3
+		// the caller's key values stay the caller's: scribbling over the key of a
+		// request after the call must not rename the stored item
+		p.Retain = true
+		w["poke"] = 1
 	case "C14":
 		p.Retain = true
 		p.NativeUpdaters = true
